@@ -304,7 +304,7 @@ class FTPProcessorSession(BaseProcessorSession):
                 self._item_session, error=error
             )
 
-            if response:
+            if response and response.body:
                 response.body.close()
 
             return wait_time
